@@ -1,6 +1,7 @@
 package concurrentbatchprocessor
 
 import (
+	"context"
 	"fmt"
 
 	"go.opentelemetry.io/collector/pdata/pcommon"
@@ -324,4 +325,131 @@ func VerifHarness_C05_split_metrics() {
 		rt.Assert(seen[id] == 1, "C05.split_metrics.exactly_once")
 	}
 	rt.Assert(len(seen) == total, "C05.split_metrics.nothing_invented")
+}
+
+// ---- the batch type contract the shard relies on (all three signals) ----
+
+func verifMetricsReq(base int64, n int) pmetric.Metrics {
+	md := pmetric.NewMetrics()
+	m := md.ResourceMetrics().AppendEmpty().ScopeMetrics().AppendEmpty().Metrics().AppendEmpty()
+	m.SetName("m")
+	g := m.SetEmptyGauge()
+	for i := 0; i < n; i++ {
+		g.DataPoints().AppendEmpty().SetStartTimestamp(pcommon.Timestamp(base + int64(i)))
+	}
+	return md
+}
+
+func verifLogsReq(base int64, n int) plog.Logs {
+	ld := plog.NewLogs()
+	lr := ld.ResourceLogs().AppendEmpty().ScopeLogs().AppendEmpty().LogRecords()
+	for i := 0; i < n; i++ {
+		lr.AppendEmpty().SetTimestamp(pcommon.Timestamp(base + int64(i)))
+	}
+	return ld
+}
+
+func verifIDsOf(data any) []int64 {
+	var ids []int64
+	switch d := data.(type) {
+	case ptrace.Traces:
+		for i := 0; i < d.ResourceSpans().Len(); i++ {
+			for j := 0; j < d.ResourceSpans().At(i).ScopeSpans().Len(); j++ {
+				ss := d.ResourceSpans().At(i).ScopeSpans().At(j).Spans()
+				for k := 0; k < ss.Len(); k++ {
+					ids = append(ids, int64(ss.At(k).StartTimestamp()))
+				}
+			}
+		}
+	case pmetric.Metrics:
+		for i := 0; i < d.ResourceMetrics().Len(); i++ {
+			for j := 0; j < d.ResourceMetrics().At(i).ScopeMetrics().Len(); j++ {
+				ms := d.ResourceMetrics().At(i).ScopeMetrics().At(j).Metrics()
+				for k := 0; k < ms.Len(); k++ {
+					ids = append(ids, verifPointIDs(ms.At(k))...)
+				}
+			}
+		}
+	case plog.Logs:
+		for i := 0; i < d.ResourceLogs().Len(); i++ {
+			for j := 0; j < d.ResourceLogs().At(i).ScopeLogs().Len(); j++ {
+				lr := d.ResourceLogs().At(i).ScopeLogs().At(j).LogRecords()
+				for k := 0; k < lr.Len(); k++ {
+					ids = append(ids, int64(lr.At(k).Timestamp()))
+				}
+			}
+		}
+	}
+	return ids
+}
+
+// VerifHarness_C05_batch_contract: for each signal's batch type (symbolic kind), STEPS rounds of
+// add(request of 1..ITEMS items); splitBatch(max) with symbolic max, then a final drain: every handed-out
+// request holds exactly `sent` items, at most max when max > 0; itemCount() always equals the number of
+// items really buffered; a handed-out request is never aliased with the buffer (later adds do not reach it);
+// over the whole history every item is handed out exactly once.
+func VerifHarness_C05_batch_contract() {
+	kind := rt.Int("kind")
+	rt.Assume(kind >= 0)
+	rt.Assume(kind <= 2)
+	var b batch
+	mk := func(base int64, n int) any { return verifTraces(base, n) }
+	switch kind {
+	case 0:
+		b = newBatchTraces(nil)
+	case 1:
+		b = newBatchMetrics(nil)
+		mk = func(base int64, n int) any { return verifMetricsReq(base, n) }
+	default:
+		b = newBatchLogs(nil)
+		mk = func(base int64, n int) any { return verifLogsReq(base, n) }
+	}
+	max := rt.Int("max")
+	rt.Assume(max >= 0)
+	rt.Assume(max <= rt.Param("ITEMS")+1)
+	type handed struct {
+		req  any
+		sent int
+	}
+	var out []handed
+	added := 0
+	buffered := 0
+	for s := 0; s < rt.Param("STEPS"); s++ {
+		n := rt.Int("n")
+		rt.Assume(n >= 1)
+		rt.Assume(n <= rt.Param("ITEMS"))
+		b.add(mk(int64(100*(s+1)), n))
+		added += n
+		buffered += n
+		rt.Assert(b.itemCount() == buffered, "C05.batch_contract.count_after_add")
+		sent, req := b.splitBatch(context.Background(), max)
+		out = append(out, handed{req, sent})
+		buffered -= sent
+		rt.Assert(sent >= 1, "C05.batch_contract.sent_positive")
+		if max > 0 {
+			rt.Assert(sent <= max, "C05.batch_contract.sent_within_max")
+		}
+		rt.Assert(b.itemCount() == buffered, "C05.batch_contract.count_after_split")
+	}
+	for b.itemCount() > 0 && len(out) < 12 {
+		sent, req := b.splitBatch(context.Background(), max)
+		out = append(out, handed{req, sent})
+		buffered -= sent
+		rt.Assert(sent >= 1, "C05.batch_contract.sent_positive")
+	}
+	rt.Assert(buffered == 0, "C05.batch_contract.drained")
+	seen := map[int64]int{}
+	total := 0
+	for _, h := range out {
+		ids := verifIDsOf(h.req)
+		rt.Assert(len(ids) == h.sent, "C05.batch_contract.request_holds_sent_items")
+		for _, id := range ids {
+			seen[id]++
+			total++
+		}
+	}
+	rt.Assert(total == added, "C05.batch_contract.all_handed_out")
+	for _, n := range seen {
+		rt.Assert(n == 1, "C05.batch_contract.exactly_once")
+	}
 }
